@@ -514,3 +514,48 @@ Proof.
   destruct (mech_actions g t mech0 b) as [t' m']. cbn [snd] in Hd. unfold fired_of. apply filter_none.
   intros r. rewrite Hd. reflexivity.
 Qed.
+
+(* ---------------------------------------------------------------- bundles that are regular for syntactic reasons *)
+(* The everyday interactions - ONE user-level update or add that carries no value for the trigger column - never
+   meet any of the five transitions, whatever the configuration and the table. *)
+Lemma existsb_none : forall (A : Type) (f : A -> bool) l, (forall x, f x = false) -> existsb f l = false.
+Proof. intros A f l H. induction l as [|x l IH]; [reflexivity|]. cbn. rewrite H. exact IH. Qed.
+
+Lemma stale_hit_fresh : forall ka kb g m cols recs,
+  (forall c, stale m c = false) -> (forall c, fstale m c = false) -> stale_hit_k ka kb g m cols recs = false.
+Proof.
+  intros ka kb g m cols recs Hs Hf. unfold stale_hit_k. rewrite (existsb_none _ _ cols); [apply andb_false_r|].
+  intros c. rewrite Hs, andb_false_r, andb_false_r. cbn [orb]. rewrite (existsb_none _ _ (readers g c)); [apply andb_false_r|].
+  intros f. rewrite Hs, Hf. apply andb_false_r.
+Qed.
+
+Lemma reach_not_default : forall g m c, is_default g = false -> reach g m c = false.
+Proof.
+  intros g m c H. destruct (reach g m c) eqn:E; [|reflexivity]. apply reach_default in E. congruence.
+Qed.
+
+Theorem regular_single_update : forall g t cols recs,
+  memz trc cols = false -> regular g t [UUpd cols recs] = true.
+Proof.
+  intros g t cols recs H. unfold regular, bundle_flags. apply negb_true_iff.
+  cbn [flag_actions]. unfold any_flag, or_flags, no_flags. cbn [fl_add fl_lost fl_stale fl_fstale fl_trim].
+  rewrite !orb_false_r. cbn [xadd xupd]. rewrite H. cbn [andb]. unfold unprotected.
+  repeat rewrite existsb_none by (intros; reflexivity).
+  cbn [stale_user_k]. rewrite !stale_hit_fresh by (intros; reflexivity). reflexivity.
+Qed.
+
+Theorem regular_single_add : forall g t cols recs,
+  memz trc cols = false -> regular g t [UAdd cols recs] = true.
+Proof.
+  intros g t cols recs H. unfold regular, bundle_flags. apply negb_true_iff.
+  cbn [flag_actions]. unfold any_flag, or_flags, no_flags. cbn [fl_add fl_lost fl_stale fl_fstale fl_trim].
+  rewrite !orb_false_r. cbn [xadd xupd stale_user_k]. rewrite H. rewrite !andb_false_r. cbn [andb orb].
+  unfold unprotected. rewrite (existsb_none _ _ (rows t)) by (intros; reflexivity).
+  rewrite (existsb_none _ (fun r => memz r [] && _)) by (intros; reflexivity).
+  rewrite !orb_false_r. unfold add_computes. rewrite H. cbn [negb orb]. rewrite andb_true_r.
+  destruct (is_never g) eqn:En; cbn [negb]; [|apply existsb_none; intros; reflexivity].
+  apply existsb_none. intros r. unfold eff_dirty. cbn [mech_user mech_doc dirty prevent clear_prevent mech0].
+  unfold set_or. rewrite En. cbn [negb andb]. rewrite andb_false_r, orb_false_r. cbn [orb].
+  rewrite (existsb_none _ _ (table_cols g)); [cbn; apply andb_false_r|].
+  intros c. apply reach_not_default. unfold is_default. unfold is_never in En. destruct (when g); congruence.
+Qed.
